@@ -967,6 +967,20 @@ fn c03(cx: &Ctx, o: &mut Outcome) {
             [Answer::File(p)] => cx.fs.file(p).cloned().unwrap_or_default(),
             _ => continue,
         };
+        // "for a single range a Content-Length equal to the bytes sent", whatever the class of the range
+        if let Some(resp) = cx.resp(i) {
+            let c = &cx.r.conns[i];
+            let clean = c.writes.iter().all(|w| w.ret >= 0 && w.ret as usize == w.len) && c.server_closed;
+            if resp.code == 206 && clean && wire::boundary_of(resp.get("Content-Type").unwrap_or("")).is_none() {
+                if let Some(n) = resp.get("Content-Length").and_then(|x| x.trim().parse::<usize>().ok()) {
+                    if n != resp.body.len() {
+                        o.evaluated = true;
+                        o.verdicts.push(v("C03", "content_length_differs_from_bytes_sent", format!("GET {} Range: {}: Content-Length {} but {} bytes were sent", rq.target, range, n, resp.body.len()), Some(i)));
+                        continue;
+                    }
+                }
+            }
+        }
         if cx.complete(i).is_err() {
             // no answer at all is a C03 matter only in so far as "never no answer": attribute to the panic if any
             if let Some(p) = cx.panic_for_conn(i) {
